@@ -676,6 +676,9 @@ class Extractor:
                             if ftoks[a].kind == 'punct' and ftoks[a].text == '{': break
                         anchor = a
                     add(anchor, ls['before'] + '\n')
+                if ls.get('after_init'):
+                    # desugared loop: between `let mut vit = ..;` and the `loop` keyword
+                    add(lp.label_idx if lp.label_idx >= 0 else lp.kw_idx, ls['after_init'] + '\n')
                 if ls.get('pre_next'):
                     add(lp.body_open + 1, ' ' + ls['pre_next'] + ' ', front=True)
                 if ls.get('body_start'):
